@@ -39,9 +39,9 @@ func init() {
 		ID:        "C15",
 		Level:     "exploration",
 		Technique: "exhaustive single-position substitution of hostile markers into every string leaf of a maximal configuration tree (file start-up path and real dashboard handlers) and into chain data, each variant executed through the real pipeline against the fake Postgres; oracle = marker search over every SQL text received",
-		Rule: "maximal configuration (3 sources, 3 integrations: log with user unique/index/notification, log with nested tuple components carrying column/filter/filter_ref, trace on a shared table); every string leaf (incl. strings in arrays) x 9 markers (' \" ; ) ( -- $$ \\ .) as the whole value, and with the metacharacter as FIRST character, as LAST character and alone on identifier-like leaves [thorough: on all leaves, plus suffix/prefix of the benign value]; every substitution inside an integration also with that integration enabled:false; dashboard documents that carry the member of an identifier-like leaf TWICE (canonical key and a Capitalised / UPPER case variant, hostile value in either, either order: 8 variants) followed by the reload of the stored row (Restart -> config.Integrations -> tasks); unique/index entries additionally as \"<column> <marker>\" and \"<column> desc <marker>\" (only ASC/DESC may follow the single space); " +
+		Rule: "maximal configuration (3 sources, 3 integrations: log with user unique/index/notification, log with nested components carrying column/filter/filter_ref under every container kind — inputs of type tuple, tuple[] and tuple[2], and two levels deep tuple>tuple, tuple>tuple[], tuple[]>tuple; the indexed logs carry 1..2 elements in every array so that each component's reference look-up is issued —, trace on a shared table); every string leaf (incl. strings in arrays) x 9 markers (' \" ; ) ( -- $$ \\ .) as the whole value, and with the metacharacter as FIRST character, as LAST character and alone on identifier-like leaves [thorough: on all leaves, plus suffix/prefix of the benign value]; every substitution inside an integration also with that integration enabled:false; dashboard documents that carry the member of an identifier-like leaf TWICE (canonical key and a Capitalised / UPPER case variant, hostile value in either, either order: 8 variants) followed by the reload of the stored row (Restart -> config.Integrations -> tasks); unique/index entries additionally as \"<column> <marker>\" and \"<column> desc <marker>\" (only ASC/DESC may follow the single space); " +
 			"FILE: decode -> ValidateFix -> Schema+Migrate -> loadTasks -> 5 rounds of one Converge per task with a reorg of block 2 -> PruneTask; DASHBOARD: every string leaf of each integration as submitted to web.Handler.SaveIntegration (others pre-stored) and every form value of SaveSource -> Manager.Restart -> runner threads to stop=3 with the same reorg; " +
-			"HISTORY: a sources-only configuration file (zero integrations) with every source string leaf substituted is the start-up file, the integrations referencing those sources are submitted / already stored, then Restart -> loadTasks -> NewTask; CHAIN: 11 chain-data positions x (9 markers + 3 injection strings such as `x'); delete …; --`) on the benign configuration, whose notifications cover byte, numeric and string-valued columns (ABI string input, trace call type); a marker in the TEXT of any statement sent is the violation, whether or not the fake can execute the statement. A case is non-trivial when the variant was rejected by validation or accepted and executed; distinct = distinct (mode, position, marker, form).",
+			"HISTORY: a sources-only configuration file (zero integrations) with every source string leaf substituted is the start-up file, the integrations referencing those sources are submitted / already stored, then Restart -> loadTasks -> NewTask; CHAIN: 11 chain-data positions x (9 markers + 3 injection strings such as `x'); delete …; --`) on the benign configuration, whose notifications cover byte, numeric and string-valued columns (ABI string input, trace call type); a marker in the TEXT of any statement sent is the violation, whether or not the fake can execute the statement. Position classes name the container kinds (component. / component[]. / component[2]., nested: component[].component.). The benign executions must fill the column of every component (else harness error). A case is non-trivial when the variant was rejected by validation or accepted and executed; distinct = distinct (mode, position, marker, form).",
 		Assumptions: []string{
 			"fake Postgres (h/simpg) records every simple-Query and Parse text; values travelling as Bind parameters or COPY data are not SQL text",
 			"a space is not a hostile character (documented \"col DESC\" index syntax); '.' is (schema qualification)",
@@ -258,7 +258,7 @@ func c15ExecOne(k c15Case, probe bool) (res c15Res, pos string, variant string) 
 		if k.Disabled {
 			disableAt(tree, k.Path)
 		}
-		pos, variant = dis+posClass(k.Path), fmt.Sprintf("file configuration with %s%s = %s (was %q)", strings.Replace(dis, ":", " integration, ", 1), strings.Join(k.Path, "."), toJSON(v), s)
+		pos, variant = dis+c15Pos(c15Base(), k.Path), fmt.Sprintf("file configuration with %s%s = %s (was %q)", strings.Replace(dis, ":", " integration, ", 1), strings.Join(k.Path, "."), toJSON(v), s)
 		if strings.HasPrefix(v, "$") && c15EnvPosition(posClass(k.Path)) {
 			return c15Res{outcome: "exit:env-placeholder"}, pos, variant
 		}
@@ -316,7 +316,7 @@ func c15ExecOne(k c15Case, probe bool) (res c15Res, pos string, variant string) 
 		if k.Disabled {
 			tree["enabled"] = false
 		}
-		pos, variant = dis+posClass(k.Path), fmt.Sprintf("POST /save-integration of %s%s with %s = %s (was %q)", strings.Replace(dis, ":", " ", 1), c15Benign.conf.Integrations[k.IG].Name, strings.Join(k.Path, "."), toJSON(v), s)
+		pos, variant = dis+c15Pos(c15Benign.igTrees[k.IG], k.Path), fmt.Sprintf("POST /save-integration of %s%s with %s = %s (was %q)", strings.Replace(dis, ":", " ", 1), c15Benign.conf.Integrations[k.IG].Name, strings.Join(k.Path, "."), toJSON(v), s)
 		if strings.HasPrefix(v, "$") && c15EnvPosition(posClass(k.Path)) {
 			return c15Res{outcome: "exit:env-placeholder"}, pos, variant
 		}
@@ -362,7 +362,7 @@ func c15ExecOne(k c15Case, probe bool) (res c15Res, pos string, variant string) 
 		if !ok {
 			return c15Res{harness: fmt.Sprintf("no duplicate-key variant %d at %v", k.Dup, k.Path)}, "", ""
 		}
-		return c15DashExec(dashReq{Kind: "integration", IG: k.IG, Body: toJSON(doc), Probe: probe}, benignChains(), needles), "dupkey:" + posClass(k.Path),
+		return c15DashExec(dashReq{Kind: "integration", IG: k.IG, Body: toJSON(doc), Probe: probe}, benignChains(), needles), "dupkey:" + c15Pos(c15Benign.igTrees[k.IG], k.Path),
 			fmt.Sprintf("POST /save-integration of %s with %s = %s — %s", c15Benign.conf.Integrations[k.IG].Name, strings.Join(k.Path, "."), toJSON(v), desc)
 	case "dash-src":
 		form := map[string]string{}
@@ -406,6 +406,15 @@ func c15BaseOK(k c15Case, r c15Res) string {
 	for _, t := range want {
 		if r.cursors[t] != 3 {
 			return fmt.Sprintf("benign %s: cursor of %s is %d, want 3 (cursors %v)", k.Mode, t, r.cursors[t], r.cursors)
+		}
+	}
+	// every component bound to a column (under whatever container: tuple, tuple[], tuple[k], two levels deep)
+	// was decoded from at least one log element and went through its filter: its column holds a value
+	var bl []leaf
+	stringLeaves(c15Base(), nil, &bl)
+	for _, l := range bl {
+		if c15Flat(posClass(l.Path)) == "component.column" && !r.filled["tb."+l.Val] {
+			return fmt.Sprintf("benign %s: no row of tb carries a value in %s (%s): the component is never processed", k.Mode, l.Val, c15Pos(c15Base(), l.Path))
 		}
 	}
 	if r.rows["ta"] == 0 || r.rows["tb"] == 0 || r.lookups < 3 || r.notifs < 2 || r.deletes < 2 || r.copies < 2 {
@@ -508,14 +517,14 @@ func c15Run(c *fw.Ctx) {
 	nd := 0
 	pcs := map[string]bool{}
 	for _, l := range ls {
-		pcs["file:"+posClass(l.Path)] = true
+		pcs["file:"+c15Pos(c15Base(), l.Path)] = true
 	}
 	for _, t := range c15Benign.igTrees {
 		var ils []leaf
 		stringLeaves(t, nil, &ils)
 		nd += len(ils)
 		for _, l := range ils {
-			pcs["dashboard:"+posClass(l.Path)] = true
+			pcs["dashboard:"+c15Pos(t, l.Path)] = true
 		}
 	}
 	c.Bound("dashboard_string_leaves", nd)
